@@ -126,3 +126,18 @@ func intsEq(a, b []int) bool {
 	}
 	return true
 }
+
+// farInts: integers far outside every table, chosen so that a narrowing
+// conversion (to 8, 16 or 32 bits, signed or unsigned) maps them onto small
+// valid indices: +-2^k + {0..7} and +-2^k - 1 for k = 8, 16, 32, plus the type's extremes.
+func farInts() []int {
+	var out []int
+	for _, k := range []uint{8, 16, 32} {
+		for d := 0; d < 8; d++ {
+			out = append(out, 1<<k+d, -(1<<k)+d, 1<<(k-1)+d)
+		}
+		out = append(out, 1<<k-1, -(1<<k)-1)
+	}
+	out = append(out, int(^uint(0)>>1), -int(^uint(0)>>1)-1, 1<<62, 255, 256*3+1)
+	return out
+}
